@@ -211,6 +211,24 @@ def changes_trigger_wakeup(ctx):
             ok = True
     ctx.check(ok, f'{pt.qualname}:wait is followed by a re-computation', pt.node, 'wait(...) ... continue inside the steady loop',
               'after a wake-up the poll loop does not recompute the due times', pt)
+    cfgp = CFG(pt.node, m, pt.module)
+    for l in steady:
+        head = cfgp.ids(l.test)
+        wids = {i for c in calls_in(l) if call_attr(c) == 'wait' and 'triggerPoll' in src(c.func) for i in cfgp.node_of(c)}
+        cids = {i for c in calls_in(l) if call_attr(c) == 'clear' and 'triggerPoll' in src(c.func) for i in cfgp.node_of(c)}
+        if wids and cids:
+            before = cfgp.reach(head, avoid=wids | set(head))
+            ctx.check(not (before & cids), f'{pt.qualname}:trigger is cleared only after the wait', l, 'no clear() between the computation of the wait time and wait()',
+                      'the trigger event is cleared before waiting: a trigger() issued between the computation of the wait time and clear() is lost - '
+                      'a changed poll interval or fast polling takes effect only after the old (long) interval expired', pt)
+        # the wait time is the minimum over ALL modules of the thread
+        for loop in [x for x in walk_local(l) if isinstance(x, ast.For) and src(x.iter) == 'modules']:
+            for a in [x for x in walk_local(loop) if isinstance(x, ast.Assign) and src(x.targets[0]) == 'wait_time']:
+                v = a.value
+                acc = isinstance(v, ast.Call) and dotted(v.func) == 'min' and any(src(x) == 'wait_time' for x in v.args)
+                ctx.check(acc, f'{pt.qualname}:wait time accumulates the minimum over all modules', a, 'wait_time = min(..., wait_time, ...)',
+                          f'`{src(a)}` does not carry the running minimum: only the last module of the list decides how long the thread sleeps - a '
+                          'module with a short interval listed before one with a long interval is polled at the long interval', pt)
     pi = [c for c in calls_in(pt.node) if call_name(c) == 'PollInfo']
     ok = bool(pi) and all(len(c.args) >= 2 and src(c.args[1]) == 'self.triggerPoll' for c in pi)
     ctx.check(ok, f'{pt.qualname}:PollInfo triggers the event the loop waits on', pt.node, 'PollInfo(..., self.triggerPoll)',
